@@ -15,6 +15,10 @@
 //	c07.wait_wakeups        wasm/memory.go MemoryInstance.wait                the channel receives the parked guest listens to
 //	c07.wait_listens_done   (same)                                            "true" iff one of them is a Done() channel
 //	c10.release_clears      wasm/module_instance.go ensureResourcesClosed      per `X != nil` test: which field is set to nil in its body
+//	c07.watch_cond_compiler wazevo/call_engine.go callWithStack               condition under which the call's context gets a watcher
+//	c07.watch_cond_interp   interpreter/interpreter.go callEngine.call        the same
+//	c11.host_module_id      wasm/host.go NewHostModule                        the expression the host module's ID is derived from
+//	c09.compiled_fields     wazevo/engine.go compiledModule, interpreter compiledFunction   field names of what is shared by all instances
 package main
 
 import (
@@ -111,6 +115,40 @@ func caseExprs(fd *ast.FuncDecl) string {
 	return strings.Join(out, " ;; ")
 }
 
+// structFields: the field names (embedded fields by their type) of a struct type declared in the file
+func structFields(repo, rel, name string) string {
+	f, err := parser.ParseFile(fset, filepath.Join(repo, rel), nil, 0)
+	if err != nil {
+		die("%v", err)
+	}
+	var out []string
+	found := false
+	ast.Inspect(f, func(n ast.Node) bool {
+		ts, ok := n.(*ast.TypeSpec)
+		if !ok || ts.Name.Name != name {
+			return true
+		}
+		st, ok := ts.Type.(*ast.StructType)
+		if !ok {
+			return true
+		}
+		found = true
+		for _, fl := range st.Fields.List {
+			if len(fl.Names) == 0 {
+				out = append(out, src(fl.Type))
+			}
+			for _, n := range fl.Names {
+				out = append(out, n.Name)
+			}
+		}
+		return false
+	})
+	if !found {
+		die("%s: struct %s not found", rel, name)
+	}
+	return strings.Join(out, " ")
+}
+
 func main() {
 	repo := flag.String("repo", "/repo", "")
 	out := flag.String("out", "../lean", "")
@@ -197,6 +235,25 @@ func main() {
 		}
 		add("c10.release_clears", strings.Join(rs, " ;; "))
 	}
+
+	add("c07.watch_cond_compiler", condOfIfContaining(fn(*repo, "internal/engine/wazevo/call_engine.go", "callWithStack", "callEngine"), "CloseModuleOnCanceledOrTimeout(ctx)"))
+	add("c07.watch_cond_interp", condOfIfContaining(fn(*repo, "internal/engine/interpreter/interpreter.go", "call", "callEngine"), "CloseModuleOnCanceledOrTimeout(ctx)"))
+	{
+		fd := fn(*repo, "internal/wasm/host.go", "NewHostModule", "")
+		var ids []string
+		ast.Inspect(fd.Body, func(n ast.Node) bool {
+			if c, ok := n.(*ast.CallExpr); ok && strings.HasSuffix(src(c.Fun), ".AssignModuleID") && len(c.Args) > 0 {
+				ids = append(ids, src(c.Args[0]))
+			}
+			return true
+		})
+		if len(ids) != 1 {
+			die("NewHostModule: %d calls of AssignModuleID", len(ids))
+		}
+		add("c11.host_module_id", ids[0])
+	}
+	add("c09.compiled_fields", "wazevo.compiledModule: "+structFields(*repo, "internal/engine/wazevo/engine.go", "compiledModule")+
+		" ;; interpreter.compiledFunction: "+structFields(*repo, "internal/engine/interpreter/interpreter.go", "compiledFunction"))
 
 	var sb strings.Builder
 	sb.WriteString("-- GENERATED by /verif/translate/facts/c00_shapes. DO NOT EDIT.\nnamespace Wz.Gen.Shapes\n\n/-- (shape id, source text) -/\ndef table : List (String × String) := [\n")
